@@ -39,7 +39,7 @@ Section StreamFailure.
       + destruct i; reflexivity.
     - inversion Hpre as [|? ? [cs [tl Hp]] Hrest]; subst.
       rewrite Hp, recover_s_ok. rewrite (IH t post (S i) Hrest Ht).
-      replace (S i + List.length pre) with (i + S (List.length pre)) by lia.
+      replace (S i + List.length pre) with (i + S (List.length pre)) by (rewrite Nat.add_succ_r; reflexivity).
       destruct (recover_s (i + S (List.length pre)) (exec_stream t)); reflexivity.
   Qed.
 
@@ -466,11 +466,11 @@ Proof.
       replace (prefix ++ ([], None) :: rest)%list with ((prefix ++ [([], None)]) ++ rest)%list
         by (rewrite <- app_assoc; reflexivity).
       replace (S (List.length prefix)) with (List.length (prefix ++ [([]:list string, @None N)]))
-        by (rewrite app_length; simpl; lia).
+        by (rewrite app_length; simpl; rewrite Nat.add_1_r; reflexivity).
       rewrite IH.
       * rewrite <- app_assoc. reflexivity.
       * intros s Hs. apply Ht. right; auto.
-    + rewrite nth_error_app2 by lia. rewrite Nat.sub_diag. reflexivity.
+    + rewrite nth_error_app2 by apply Nat.le_refl. rewrite Nat.sub_diag. reflexivity.
 Qed.
 
 (* the canonical schedule (tool 0's stream to its end, then tool 1's, ...) is complete *)
